@@ -55,6 +55,7 @@ def tier_a_jobs(impl, scripts, aspects, workers_default=15, no_layout=False):
         dirty = {}         # job -> set of handles that must be processed by its next run
         touched = {}       # job -> set of (arch, chunk)
         prev_pos = {}
+        typed = {}
         pending_acts = []
         workers = workers_default
         cap = 16384
@@ -117,9 +118,23 @@ def tier_a_jobs(impl, scripts, aspects, workers_default=15, no_layout=False):
                             dirty[j].add(occ_now[slot])
             if op == 'jobact' and len(t) > 4:
                 pending_acts.append((int(t[1]), t[3], int(t[4])))
-            if op == 'runjob':
-                j = int(t[1]); mode = int(t[2]); forced = int(t[3]) if len(t) > 3 else 0
-                jb = jobs[j]
+            if op in ('runjob', 'runtyped'):
+                mode = int(t[2]); forced = int(t[3]) if len(t) > 3 else 0
+                if op == 'runjob':
+                    j = int(t[1])
+                    jb = jobs[j]
+                else:
+                    # the driver's typed jobs (PerEntityJob<T>): no version filter; arguments (palette, const, optional)
+                    j = 'T' + t[1]
+                    if j not in typed:
+                        spec = [[(0, False, False)], [(0, True, False), (1, True, True)], [(2, False, False), (4, True, False)], [(2, True, True), (1, False, False)]][int(t[1])]
+                        reqs_ = []
+                        for pal_, cst_, opt_ in spec:
+                            cs_ = pal_cids(lines_of[name], blocks, pal_)
+                            reqs_.append((cs_[0] if cs_ else -1, cst_, opt_))
+                        typed[j] = dict(reqs=reqs_, chk=set(), ran=False)
+                        dirty[j] = set(); touched[j] = set()
+                    jb = typed[j]
                 last, arrays = parse_job_R(r)
                 visits = []
                 for task, idx, ents in arrays:
